@@ -258,6 +258,28 @@ theorem mpz_gcd_small_alloc_safe_partial (s : St) (g u v : Nat) (hs : s.ok = tru
     · obtain ⟨R, W⟩ := gcdOne_refines s g u v hs hg hu hv (by omega) (by omega) (by omega)
       exact ⟨_, R.safe W, by simp [Mpz.toInt, val]⟩
 
+/-- mpz_gcd (mpz/gcd.c), general arm, the destination side (gcd.c:133-154, `gcdTail`): for every limb list `G` that mpn_gcd
+    may have left in TMP space (non-empty, limbs), every count of common zero limbs and every count `g_zero_bits ≤ 63` of common
+    zero bits, every allocation of g: `MPZ_REALLOC (g, gsize)` with `gsize = vsize + g_zero_limbs + ((vp[vsize-1] >> (64 -
+    g_zero_bits)) != 0)` covers MPN_ZERO, the `vsize` limbs mpn_lshift stores at `PTR (g) + g_zero_limbs`, and the store
+    `tp[vsize] = cy_limb`, which happens exactly when the extra limb was counted (the bits mpn_lshift returns ARE the top bits of
+    the top limb: `lshift_carry`); `SIZ (g) = gsize` stays within the allocation; no other variable is touched.
+    PARTIAL: missing for the full `Safe` statement of the general arm: the TMP side (the stripped copies fit their blocks;
+    mpn_gcd's result fits vp's block — its C07 contract), that the stored limbs are normalised, and the value. -/
+theorem mpz_gcd_tail_alloc_safe_partial (s : St) (g : Nat) (G : List Nat) (gzl gzb : Nat) (hs : s.ok = true) (hg : OWF (s.h g))
+    (hG : Limbs G) (hne : G ≠ []) (hb : gzb ≤ 63) :
+    (gcdTail 0 false s g G gzl gzb).ok = true ∧ BWF ((gcdTail 0 false s g G gzl gzb).h g).buf ∧
+    ((gcdTail 0 false s g G gzl gzb).h g).size.natAbs ≤ ((gcdTail 0 false s g G gzl gzb).h g).buf.alloc ∧
+    (∀ x, x ≠ g → (gcdTail 0 false s g G gzl gzb).h x = s.h x) :=
+  gcdTail_mem s g G gzl gzb hs hg hG hne hb
+
+-- 3 << (64 + 63) into the one-limb variable: carry limb counted and stored (3 limbs); 1 << (64 + 63): not counted, not stored
+example : let s := gcdTail 0 false ex6 0 [3] 1 63; s.ok = true ∧ view (s.h 0) = ⟨3, 3, [0, 2 ^ 63, 1]⟩ := by decide
+example : let s := gcdTail 0 false ex6 0 [1] 1 63; s.ok = true ∧ view (s.h 0) = ⟨2, 2, [0, 2 ^ 63]⟩ := by decide
+-- negative: one limb less requested; the carry limb stored although it was not counted
+example : (gcdTail 1 false ex6 0 [3] 1 63).ok = false := by decide
+example : (gcdTail 0 true ex6 0 [1] 1 63).ok = false := by decide
+
 -- gcd (B^2 - 1, 6) = 3 into variable 0 and over v; gcd (0, v) copies; in place nothing is reallocated
 example : let s := mpz_gcd ex6 0 1 2; s.ok = true ∧ view (s.h 0) = ⟨1, 1, [3]⟩ := by decide
 example : let s := mpz_gcd ex6 2 1 2; s.ok = true ∧ view (s.h 2) = ⟨1, 1, [3]⟩ := by decide
